@@ -50,6 +50,8 @@ Hypothesis e_Rw : forall x, Rw (c e x) == c e (Rw x).
 Variable J : T.
 Hypothesis JdJ : adj J * J == f.
 Hypothesis JJd : J * adj J == e.
+Hypothesis eJ : e * J == J.
+Hypothesis Jf : J * f == J.
 Definition phi (x : T) : T := J * x * adj J.
 Hypothesis phi_Sel : forall x, Sel (phi x) == phi (Sel x).
 
@@ -64,13 +66,94 @@ Lemma phi_add x y : phi (x + y) == phi x + phi y. Proof. unfold phi. non_commuta
 Lemma phi_opp x : phi (- x) == - phi x. Proof. unfold phi. non_commutative_ring. Qed.
 Lemma phi_sub x y : phi (x - y) == phi x - phi y. Proof. unfold phi. non_commutative_ring. Qed.
 Lemma phi_zero : phi 0 == 0. Proof. unfold phi. non_commutative_ring. Qed.
+#[local] Existing Instance c_P.
 Instance phi_am : AddMap phi := {| am_P := phi_P; am_add := phi_add; am_opp := phi_opp |}.
 
-Lemma Jf : J * f == J.
+Lemma adjJ_e : adj J * e == adj J.
+Proof. rewrite <- e_adj, <- adj_mul, eJ. reflexivity. Qed.
+Lemma f_adjJ : f * adj J == adj J.
+Proof. rewrite <- f_adj, <- adj_mul, Jf. reflexivity. Qed.
+Lemma ce_phi x : c e (phi x) == phi x.
 Proof.
-  (* J f = J J^dagger J = e J, and e J = J J^dagger J as well; J = J J^dagger J follows from
-     (J - J f)^dagger (J - J f) = f - f - f + f = 0 only in a C*-setting, so we derive it from the
-     two equations differently: J f = J (J^dagger J) = (J J^dagger) J = e J. *)
-  rewrite <- JdJ. rewrite ring_mul_assoc, JJd.
-Abort.
+  unfold c, phi.
+  assert (E : e * (J * x * adj J) * e == (e * J) * x * (adj J * e)) by non_commutative_ring.
+  rewrite E, eJ, adjJ_e. reflexivity.
+Qed.
+Lemma phi_cf x : phi (c f x) == phi x.
+Proof.
+  unfold c, phi.
+  assert (E : J * (f * x * f) * adj J == (J * f) * x * (f * adj J)) by non_commutative_ring.
+  rewrite E, Jf, f_adjJ. reflexivity.
+Qed.
+
+Lemma h_P : Proper (ceq f ==> ceq e) phi.
+Proof.
+  intros x y E. unfold ceq in *. rewrite !ce_phi, <- (phi_cf x), <- (phi_cf y). apply phi_P. exact E.
+Qed.
+Lemma h_zero : ceq e (phi 0) 0. Proof. apply lift_eq. apply phi_zero. Qed.
+Lemma h_one : ceq e (phi f) e.
+Proof. apply lift_eq. unfold phi. rewrite Jf, JJd. reflexivity. Qed.
+Lemma h_sub x y : ceq e (phi (x - y)) (phi x - phi y). Proof. apply lift_eq. apply phi_sub. Qed.
+Lemma h_mul x y : ceq e (phi (cmul f x y)) (cmul e (phi x) (phi y)).
+Proof.
+  apply lift_eq. unfold cmul, phi.
+  assert (E : J * x * adj J * e * (J * y * adj J) == J * x * (adj J * (e * J)) * y * adj J) by non_commutative_ring.
+  rewrite E, eJ, JdJ. non_commutative_ring.
+Qed.
+Lemma h_adj x : ceq e (phi (adj x)) (adj (phi x)).
+Proof. apply lift_eq. unfold phi. rewrite !adj_mul, adj_inv. non_commutative_ring. Qed.
+Lemma h_half x : ceq e (phi (cdivz f x 2)) (cdivz e (phi x) 2).
+Proof.
+  apply lift_eq. unfold cdivz.
+  rewrite (@divz_am _ _ _ _ _ _ _ _ _ _ _ phi phi_am 2%Z (c f x)) by discriminate.
+  apply divz_proper. rewrite phi_cf. symmetry. apply ce_phi.
+Qed.
+Lemma h_Sel x : ceq e (phi (Sel x)) (Sel (phi x)).
+Proof. apply lift_eq. symmetry. apply phi_Sel. Qed.
+Lemma h_ord k x : cord f k x -> cord e k (phi x).
+Proof.
+  unfold cord. intros H. rewrite ce_phi, <- phi_cf. unfold phi.
+  assert (H1 : ord (Nat.add (Nat.add 0 k) 0) (J * c f x * adj J)).
+  { apply ord_mul. apply ord_mul. apply ord_O. exact H. apply ord_O. }
+  cbn [Nat.add] in H1. rewrite Nat.add_0_r in H1. exact H1.
+Qed.
+
+Definition corner_embedding_LAHom : @LAHom T r0 f add (cmul f) sub opp (ceq f) (corner_ops f) BAf
+                                           T r0 e add (cmul e) sub opp (ceq e) (corner_ops e) BAe phi :=
+  @Build_LAHom T r0 f add (cmul f) sub opp (ceq f) (corner_ops f) BAf
+               T r0 e add (cmul e) sub opp (ceq e) (corner_ops e) BAe phi
+               h_P h_zero h_one h_sub h_mul h_adj h_half h_Sel h_ord.
+
+(** The outputs of the implicit computation (any solution of the shipped Hermitian algorithm in the
+    corner by [e]) are the images of the outputs of the explicit one (corner by [f]). *)
+Section Outputs.
+Variable rflag rflag' : string -> T -> T.
+Variable fenv fenv' : string -> list T -> T.
+Variable sol sol' : string -> T.
+Hypothesis Hsol : @solution T r0 f add (cmul f) sub opp (ceq f) (corner_ops f) BAf (gflag_of false) rflag fenv sol main_alg.
+Hypothesis Hsol' : @solution T r0 e add (cmul e) sub opp (ceq e) (corner_ops e) BAe (gflag_of false) rflag' fenv' sol' main_alg.
+Hypothesis Hw : @wiring T r0 f add (cmul f) sub opp (ceq f) (corner_ops f) BAf rflag fenv (sol "H").
+Hypothesis Hw' : @wiring T r0 e add (cmul e) sub opp (ceq e) (corner_ops e) BAe rflag' fenv' (sol' "H").
+Hypothesis Hin : ceq e (sol' "H") (phi (sol "H")).
+(* the implicit Sylvester solver is a left inverse of the Sylvester operator on eliminated elements *)
+Hypothesis sylv_left' : forall x,
+  ceq e (sylv fenv' ((Zc (sol' "H")) * e * (x - Sel x) - (x - Sel x) * e * (Zc (sol' "H")))
+         - Sel (sylv fenv' ((Zc (sol' "H")) * e * (x - Sel x) - (x - Sel x) * e * (Zc (sol' "H")))))
+        (x - Sel x).
+
+Theorem corner_outputs_correspond :
+  ceq e (sol' "U") (phi (sol "U")) /\ ceq e (sol' "U†") (phi (sol "U†")) /\ ceq e (sol' "H_tilde") (phi (sol "H_tilde")).
+Proof.
+  repeat split.
+  - exact (@transport_U T r0 f add (cmul f) sub opp (ceq f) (corner_ops f) (corner_ring f f_idem) BAf
+                        T r0 e add (cmul e) sub opp (ceq e) (corner_ops e) (corner_ring e e_idem) BAe
+                        phi corner_embedding_LAHom rflag rflag' fenv fenv' sol sol' Hsol Hsol' Hw Hw' Hin sylv_left').
+  - exact (@transport_Ud T r0 f add (cmul f) sub opp (ceq f) (corner_ops f) (corner_ring f f_idem) BAf
+                        T r0 e add (cmul e) sub opp (ceq e) (corner_ops e) (corner_ring e e_idem) BAe
+                        phi corner_embedding_LAHom rflag rflag' fenv fenv' sol sol' Hsol Hsol' Hw Hw' Hin sylv_left').
+  - exact (@transport_Ht T r0 f add (cmul f) sub opp (ceq f) (corner_ops f) (corner_ring f f_idem) BAf
+                        T r0 e add (cmul e) sub opp (ceq e) (corner_ops e) (corner_ring e e_idem) BAe
+                        phi corner_embedding_LAHom rflag rflag' fenv fenv' sol sol' Hsol Hsol' Hw Hw' Hin sylv_left').
+Qed.
+End Outputs.
 End Embed.
